@@ -107,7 +107,7 @@ def bool_eq(a, b):
 def sym_decimal(ctx, name):
     """symbolic coefficient x 10^e; e is solver-chosen for the call's subject parameter (itself solver-chosen among
     the decimal parameters of the call) and -2 for the others, so that paths grow linearly with the parameter count"""
-    st = ctx.__dict__.setdefault("_c17", {"n": 0, "subject": None})
+    st = ctx.scratch.setdefault("_c17", {"n": 0, "subject": None})
     idx = st["n"]
     st["n"] += 1
     if st["subject"] is None:
